@@ -158,7 +158,7 @@ func c06DirtyBuffer() gopacket.SerializeBuffer {
 # exploration does not fit the budgets.  They are NOT claimed by C06/C07.
 C06_NOT_CLAIMED = {
     "Dot11": "the decoder strips a 4-octet frame check sequence that the serializer does not write, so written bytes decode with an error or a shorter payload; whether the caller is meant to append the FCS is an open oracle question",
-    "RadioTap": "payload differs after the round trip (FCS re-computation) and the decoder still has known C19 defects; not triaged",
+    "RadioTap": "the decoder appends a computed FCS to the payload when the flags say none is present, so the payload differs after the round trip; same open oracle question as Dot11",
     "DNS": "exploration does not complete within the budgets (string handling)",
 }
 
@@ -256,9 +256,9 @@ def gen_c06(tier, enum):
 
 
 # C07's oracle (no panic, bytes independent of the buffer's past) has no open
-# question for Dot11, GTPv1U and Geneve, so C07 claims them; RadioTap's decoder
-# still panics (C19 known findings) and DNS does not decode within the budgets
-C07_NOT_CLAIMED = {k: v for k, v in C06_NOT_CLAIMED.items() if k in ("RadioTap", "DNS")}
+# question for Dot11 and RadioTap, so C07 claims them; DNS does not decode
+# within the budgets
+C07_NOT_CLAIMED = {k: v for k, v in C06_NOT_CLAIMED.items() if k in ("DNS",)}
 C07_RANGE = {"Dot11": {"quick": (10, 34), "thorough": (0, 40)}}
 
 
@@ -456,7 +456,7 @@ PROPS = {
         "generate": gen_c07,
         "must_reach_all": ["decoded"],
         "bounds": "every claimed type with both DecodeFromBytes and SerializeTo: layer decoded from n symbolic bytes (same length ranges as C06), FixLengths on/off (ComputeChecksums on/off as well in thorough); serialized into a fresh buffer, a buffer that held 64 symbolic garbage bytes and was cleared, and a pre-sized buffer (hints 0..2); outputs compared bytewise; ARP: the two address-size octets are enumerated 0..3 instead of symbolic; every unit must reach a successful decode",
-        "outside": "layer values built through public fields without decoding; layer types RadioTap (its decoder still panics, C19 known findings) and DNS (does not decode within the budgets) are not claimed",
+        "outside": "layer values built through public fields without decoding; layer type DNS (does not decode within the budgets) is not claimed",
         "quick": {"timeout": 500, "qtimeout": 20000, "fbtimeout": 60000, "maxpaths": 200, "partial_ok_all": True, "unsupported_ok": True},
         "thorough": {"timeout": 5000, "maxpaths": 3000, "partial_ok_all": True, "unsupported_ok": True},
     },
